@@ -6,7 +6,8 @@ import subprocess
 
 from fv import core, cppharness
 
-H_FRACTIONS = {0.1: (1, 10), 0.05: (1, 20), 0.01: (1, 100), 0.25: (1, 4), 0.3: (3, 10), 1.0: (1, 1), 1.0 / 30.0: (1, 30), 0.125: (1, 8)}
+H_FRACTIONS = {0.1: (1, 10), 0.05: (1, 20), 0.01: (1, 100), 0.25: (1, 4), 0.3: (3, 10), 1.0: (1, 1), 1.0 / 30.0: (1, 30), 0.125: (1, 8),
+               1.0 / 3000000.0: (1, 3000000), 1.0 / 30000.0: (1, 30000)}
 COMBOS = {0: (True, True), 1: (True, False), 2: (False, True), 3: (False, False)}  # (control, calibration)
 
 
